@@ -4,7 +4,7 @@ the ordinary `await asyncio.wait_for(reader.readexactly(n), timeout)` pattern - 
 they are neither returned nor put back, so the next read continues AFTER them.  (asyncio.StreamReader.readexactly
 leaves its buffer untouched until n bytes are there, so code ported from asyncio streams relies on this.)
 Affects readexactly(n) with fewer than n units buffered and read(-1)/read() before EOF.
-Contract clause (enable with PYVC_C19_PENDING=cancel): C19.stream.SSHStreamSession.read#post-raise(CancelledError)
+Outside the C19 claim (cancellation is not in its quantifier); developer switch CHECK_CANCELLED_READ in contracts/c19.py: C19.stream.SSHStreamSession.read#post-raise(CancelledError)
 "a cancelled read consumes nothing".
 Run: /venv/bin/python /verif/notes/findings/c19_cancelled_read_loses_data.py
 
